@@ -12,7 +12,6 @@ T14 exhaustiveness: the sub-patterns of a struct pattern are aligned with the de
 T15 number / range patterns are compared with min() / max() of the matched number type on every accepting path
 T16 type definitions: duplicated struct fields are rejected; self-containing struct / enum definitions are rejected before any function body is checked
 T17 const definitions: the declared type is resolved before it is registered; a value provided by a party is registered with one type
-T18 cross-reference: a number pattern covers only its own singleton constructor range (C08-M6), else `let -128i8 = x;` is accepted
 T19 the parser reports a second top-level definition of the same name (const / struct / enum / fn) instead of replacing the first
 T12 a block takes the type of its last statement only (assigned on the `index == len - 1` edge, or afresh for every statement)
 T11 max / min / + / - const expressions are only accepted for consts whose declared type is examined (numeric)
@@ -1272,19 +1271,6 @@ def rule_t17(ctx):
     return res
 
 
-def rule_t18(ctx):
-    """Cross-reference: a refutable pattern in `let` / `for` is only noticed if the exhaustiveness check is exact for numbers:
-    a number pattern covers a constructor range only when the range is that number (C08-M6)."""
-    from . import C08
-    res = RuleResult("T18", "refutability of number patterns: a number covers only its own singleton range (cross-reference to C08-M6)")
-    sub = C08.rule_m6(ctx)
-    for x in sub.findings:
-        res.bad(Finding("T18", x.fn, x.site, x.message, x.span))
-    if not sub.findings:
-        res.ok({"verdict": "C08-M6 holds"})
-    return res
-
-
 def rule_t19(ctx):
     """Top-level definitions are kept in maps by name.  A second definition with the same name must be an error: if it silently
     replaces the first one, the first one (with whatever rule violations it contains) is never checked at all."""
@@ -1325,4 +1311,4 @@ def rule_t19(ctx):
 
 
 def run(ctx):
-    return ctx.run_rules([rule_t1, rule_t2, rule_t3, rule_t4, rule_t5, rule_t6, rule_t7, rule_t8, rule_t9, rule_t10, rule_t11, rule_t12, rule_t13, rule_t14, rule_t15, rule_t16, rule_t17, rule_t18, rule_t19])
+    return ctx.run_rules([rule_t1, rule_t2, rule_t3, rule_t4, rule_t5, rule_t6, rule_t7, rule_t8, rule_t9, rule_t10, rule_t11, rule_t12, rule_t13, rule_t14, rule_t15, rule_t16, rule_t17, rule_t19])
